@@ -112,7 +112,8 @@ def execReload (props : JVal) : M (R ExecRes) := do
     let t ← syncCoroutine "arbiter_reload" (.arbReload g s) []
     pure (t.map fun tid => .future tid "")
 
-/-- body of one synchronized `set_opt` call (`lenient`: the hooks.* keys never fail in the model) -/
+/-- body of one synchronized `set_opt` call (`lenient` is no longer used: a `hooks.*` value that cannot be split, whose flag is
+    no boolean word or whose name does not resolve raises like any other option) -/
 def setOptBody (u : Nat) (key : String) (val : JVal) (lenient : Bool) : M (R Unit) := do
   let ok ← setOpt u key val
   pure (if ok || lenient then .ok () else .error (.other "ValueError"))
@@ -135,8 +136,12 @@ def execSet (props : JVal) : M (R ExecRes) := do
           | .obj hs =>
             for h in hs do
               if err.isNone then
-                let r ← syncPlain "watcher_set_opt" (setOptBody u ("hooks." ++ h.1) h.2 true)
+                let r ← syncPlain "watcher_set_opt" (setOptBody u ("hooks." ++ h.1) h.2 false)
                 match r with | .error e => err := some e | .ok _ => pure ()
+            -- `action = watcher.set_opt('hooks.%s' % name, _val)`: the loop variable IS the accumulated action — a hook that
+            -- is set (set_opt returns 0) resets a restart an earlier option of the same request had asked for.  (When one of
+            -- them raises the request fails and the action is never used: resetting for any non-empty dict is the same.)
+            if !hs.isEmpty then action := 0
           | _ => pure ()
         else
           let r ← syncPlain "watcher_set_opt" (setOptBody u key val false)
@@ -329,7 +334,21 @@ def addCore (props : JVal) : M (R Nat) := do
           pure (.ok uid)
   | _ => pure (.error (.other "AttributeError"))
 
+/-- `AddWatcher.execute`, first thing: in endpoint-owner mode (`endpoint_owner` set and an ipc:// control endpoint) the
+    `uid` option of the request must be the endpoint owner (`options.get('uid') != arbiter.endpoint_owner` → MessageError);
+    `options` is `props.get('options', {})` — `validate` has made sure it is an object when present -/
+def ownerRefuses (owner : Option String) (props : JVal) : Bool :=
+  match owner with
+  | none => false
+  | some o =>
+    let opts := match props.get? "options" with | some (.obj kvs) => kvs | _ => []
+    match (JVal.obj opts).get? "uid" with
+    | some (.str u) => u != o
+    | _ => true
+
 def execAdd (props : JVal) : M (R ExecRes) := do
+  let a ← getA
+  if ownerRefuses a.endpointOwner props then pure (.error .message) else
   let r ← syncPlain "arbiter_add_watcher" (addCore props)
   match r with
   | .error e => pure (.error e)
@@ -419,6 +438,92 @@ def execStats (props : JVal) : M (R ExecRes) := do
       | none => statsWatcher u name
   | none => statsAll
 
+/-! ### `options`, `get`, `globaloptions`, `dstats`, `listsockets` (commands/options.py, get.py, globaloptions.py, …)
+
+The reply bodies are canonical text (harness/sim.py `body_of` renders the implementation's reply the same way):
+`options=<name>:<value>;…` over the option names the model's watcher record carries, sorted by name; ints in
+decimal, booleans `true`/`false`, `warmup_delay` / `graceful_timeout` in integer milliseconds.  Options of the real
+watcher that the model does not carry (cmd, env, uid, …) are left out of the compared body on both sides. -/
+
+/-- `Watcher.optnames` (watcher.py, `__init__`): the names `get` accepts and `options` lists.  (`autostart`, `hooks`,
+    `rlimits`, `stdin_socket`, `virtualenv` are constructor parameters but not option names; extra keyword options of the
+    constructor — `retry_in`, dotted keys given to `add` — would be appended: outside the modelled domain.) -/
+def optNames : List String :=
+  ["numprocesses", "warmup_delay", "working_dir", "uid", "gid", "send_hup", "stop_signal", "stop_children", "shell",
+   "shell_args", "env", "max_retry", "cmd", "args", "respawn", "graceful_timeout", "executable", "use_sockets",
+   "priority", "copy_env", "singleton", "stdout_stream_conf", "on_demand", "stderr_stream_conf", "max_age",
+   "max_age_variance", "close_child_stdin", "close_child_stdout", "close_child_stderr"]
+
+def boolText (b : Bool) : String := if b then "true" else "false"
+
+/-- `Watcher.options()` (`sorted(self.optnames)`, value = the attribute) restricted to the options the model carries -/
+def optionPairs (w : Watcher) : List (String × String) :=
+  [("graceful_timeout", toString w.graceful), ("max_age", toString w.maxAge), ("max_retry", toString w.maxRetry),
+   ("numprocesses", toString w.np), ("on_demand", boolText w.onDemand), ("priority", toString w.priority),
+   ("respawn", boolText w.respawn), ("send_hup", boolText w.sendHup), ("singleton", boolText w.singleton),
+   ("stop_children", boolText w.stopChildren), ("stop_signal", toString w.stopSignal),
+   ("warmup_delay", toString w.warmup)]
+
+def renderOptions (kvs : List (String × String)) : String :=
+  "options=" ++ ";".intercalate (kvs.map fun kv => kv.1 ++ ":" ++ kv.2)
+
+/-- the body of an `options` reply: a function of the watcher record alone -/
+def optionsBody (w : Watcher) : String := renderOptions (optionPairs w)
+
+/-- `options`: `{"options": dict(watcher.options())}` -/
+def execOptions (props : JVal) : M (R ExecRes) := do
+  let r ← getWatcherCmd ((props.get? "name").getD .null)
+  match r with
+  | .error e => pure (.error e)
+  | .ok u => do let w ← getW u; pure (.ok (.value (optionsBody w)))
+
+/-- what `for name in props.get('keys', [])` iterates over: the items of a list, the characters of a string, the keys of
+    an object; `none` = not iterable (null, number, boolean): TypeError -/
+def getKeyItems : JVal → Option (List JVal)
+  | .arr xs => some xs
+  | .str s => some (s.toList.map fun c => .str (String.singleton c))
+  | .obj kvs => some (kvs.map fun kv => .str kv.1)
+  | _ => none
+
+/-- `name in watcher.optnames` -/
+def isOptName : JVal → Bool
+  | .str n => optNames.contains n
+  | _ => false
+
+/-- the loop of `Get.execute` on a found watcher: the first item that is no option name raises MessageError (whatever
+    its type — membership in a tuple is by equality); otherwise the named options, as a dict (duplicates collapse) -/
+def getBody (w : Watcher) (keys : JVal) : R ExecRes :=
+  match getKeyItems keys with
+  | none => .error (.other "TypeError")
+  | some items =>
+    if items.all isOptName then
+      .ok (.value (renderOptions ((optionPairs w).filter fun kv => items.any fun k => match k with | .str n => n = kv.1 | _ => false)))
+    else .error .message
+
+/-- `get`: `_get_watcher` first (unknown watcher → MessageError before `keys` is looked at), then the keys -/
+def execGet (props : JVal) : M (R ExecRes) := do
+  let r ← getWatcherCmd ((props.get? "name").getD .null)
+  match r with
+  | .error e => pure (.error e)
+  | .ok u => do let w ← getW u; pure (getBody w ((props.get? "keys").getD (.arr [])))
+
+/-- `globaloptions._OPTIONS` -/
+def globalOptionNames : List String :=
+  ["endpoint", "stats_endpoint", "pubsub_endpoint", "check_delay", "multicast_endpoint"]
+
+/-- `globaloptions`: `wanted = props.get('option')`; a truthy `wanted` must be one of the five names (MessageError
+    otherwise, whatever its type), a falsy or absent one means all of them.  The values (endpoints, check_delay) are
+    parameters of the harness and not carried by the model: the body lists the names, sorted. -/
+def globalOptionsBody (props : JVal) : R ExecRes :=
+  let all : R ExecRes := .ok (.value ("options=" ++ ";".intercalate (sortStrs globalOptionNames)))
+  match props.get? "option" with
+  | none => all
+  | some v =>
+    if !v.truthy then all else
+    match v with
+    | .str n => if globalOptionNames.contains n then .ok (.value ("options=" ++ n)) else .error .message
+    | _ => .error .message
+
 def execReadOnly (cmd : String) (props : JVal) : M (R ExecRes) := do
   match cmd with
   | "status" =>
@@ -461,6 +566,13 @@ def execReadOnly (cmd : String) (props : JVal) : M (R ExecRes) := do
     pure (.ok (.value ("numwatchers=" ++ toString a.watchers.length)))
   | "listen" => pure (.error .message)
   | "stats" => execStats props
+  | "options" => execOptions props
+  | "get" => execGet props
+  | "globaloptions" => pure (globalOptionsBody props)
+  -- `dstats`: the psutil figures of the daemon itself (`{"info": {...}}`), outside the model: some figures, always
+  | "dstats" => pure (.ok (.value "info:?"))
+  -- `listsockets`: the managed sockets sorted by fd; the core model has none (the Sockets layer has them)
+  | "listsockets" => pure (.ok (.value "sockets=[]"))
   | _ => pure (.ok .unmodelled)
 
 /-- `cmd.validate(props)` then `cmd.execute(arbiter, props)` -/
